@@ -33,6 +33,8 @@ def cval(v):
         return "(VTuple [%s])" % ";".join(cval(x) for x in v)
     if type(v).__name__ == "Script" and type(v).__module__ == "btc_hd_wallet.script":
         return '(VObj "Script" [%s])' % cval(v.cmds)
+    if type(v).__name__ == "BIP85DeterministicEntropy":
+        return '(VObj "BIP85DeterministicEntropy" [VNone; %s])' % cval(v.testnet)   # master_node is only handed to the external entropy()
     if type(v).__name__ == "PrivateKey" and type(v).__module__ == "btc_hd_wallet.keys":
         return '(VObj "PrivateKey" [%s; VNone])' % cval(v.k)          # K (a python-ecdsa object) is never read by the translated methods
     if type(v).__name__ == "Bip32Path" and type(v).__module__ == "btc_hd_wallet.wallet_utils":
@@ -59,6 +61,8 @@ def jval(v):
         return {"tuple": [jval(x) for x in v]}
     if type(v).__name__ == "Script":
         return {"script": jval(v.cmds)}
+    if type(v).__name__ == "BIP85DeterministicEntropy":
+        return {"bip85": v.master_node.extended_private_key(), "testnet": v.testnet}
     if type(v).__name__ == "PrivateKey":
         return {"privkey": bytes(v.k).hex()}
     if type(v).__name__ == "Bip32Path":
@@ -83,6 +87,9 @@ def unj(j):
         if "script" in j:
             from btc_hd_wallet.script import Script
             return Script(unj(j["script"]))
+        if "bip85" in j:
+            from btc_hd_wallet.bip85 import BIP85DeterministicEntropy
+            return BIP85DeterministicEntropy.from_xprv(j["bip85"], testnet=j["testnet"])
         if "privkey" in j:
             from btc_hd_wallet.keys import PrivateKey
             return PrivateKey(bytes.fromhex(j["privkey"]))
@@ -325,6 +332,21 @@ def gen_args(rng, qual, tier):
         for L in (0, 1, 19, 20, 21, 32, 33, 75, 76):
             out.append((rb(L),))
         out += [(rb(20),) for _ in range(n // 4)] + [(5,), (None,), ("ab",), ([1, 2],)]
+    elif qual in ("bip85.BIP85DeterministicEntropy.hex", "bip85.BIP85DeterministicEntropy.bip39_mnemonic"):
+        from btc_hd_wallet.bip85 import BIP85DeterministicEntropy
+        from btc_hd_wallet.bip32 import PrvKeyNode
+        objs = [BIP85DeterministicEntropy(PrvKeyNode.master_key(bytes([i]) * 32), testnet=bool(i % 2)) for i in (1, 2)]
+        H = 2 ** 31
+        idx = [0, 1, H - 1, H, -1, 2 ** 32, rng.randrange(0, H), rng.randrange(0, 1000)]
+        if qual.endswith("hex"):
+            for nb in (15, 16, 17, 32, 63, 64, 65, 0, -1, rng.randrange(16, 65)):
+                for i in idx[: (8 if nb in (16, 64) else 3)]:
+                    out.append((rng.choice(objs), nb, i))
+            out += [(objs[0], 32, True), (objs[0], "32", 0)]
+        else:
+            for wc in (12, 15, 18, 21, 24, 0, 13, 11, 25, -12):
+                for i in idx[: (8 if wc in (12, 24) else 2)]:
+                    out.append((rng.choice(objs), wc, i))
     elif qual in ("keys.PrivateKey.__bytes__", "keys.PrivateKey.wif"):
         from btc_hd_wallet.keys import PrivateKey
         NN = 0xFFFFFFFFFFFFFFFFFFFFFFFFFFFFFFFEBAAEDCE6AF48A03BBFD25E8CD0364141
@@ -398,11 +420,30 @@ class PySemProp(BaseProp):
             target = nxt          # module function, static / class method, property getter, or plain function of a class (self passed first)
         args = [unj(a) for a in case["args"]]
         rec = Recorder()
-        with rec.installed():
-            try:
-                r = ("val", target(*args))
-            except Exception as e:
-                r = ("exc", type(e).__name__)
+        ent_log = None
+        if parts[0] == "bip85" and parts[-1] in ("hex", "bip39_mnemonic"):
+            # the external primitive entropy(path): logged, and handed to the interpreter as a table
+            from btc_hd_wallet.bip85 import BIP85DeterministicEntropy as _B
+            ent_log = []
+            _orig = _B.entropy
+            def _logged(self_, path):
+                try:
+                    v = _orig(self_, path)
+                except Exception:
+                    ent_log.append((path, None))
+                    raise
+                ent_log.append((path, v))
+                return v
+            _B.entropy = _logged
+        try:
+            with rec.installed():
+                try:
+                    r = ("val", target(*args))
+                except Exception as e:
+                    r = ("exc", type(e).__name__)
+        finally:
+            if ent_log is not None:
+                _B.entropy = _orig
         if r[0] == "val":
             try:
                 exp = "(Val %s)" % cval(r[1])
@@ -414,12 +455,18 @@ class PySemProp(BaseProp):
                 return {"skip": "exception class outside MiniPy: " + r[1], "err": True}
             exp = "(Exc %s)" % r[1]
             shown = {"raises": r[1]}
-        return {"exp": exp, "shown": shown, "sha": rec.sha_table(), "err": r[0] == "exc"}
+        out = {"exp": exp, "shown": shown, "sha": rec.sha_table(), "err": r[0] == "exc"}
+        if ent_log is not None:
+            out["ent"] = "[%s]" % ";".join("([%s], %s)" % (";".join(str(ord(c)) for c in pth), ('(Some "%s")' % v.hex()) if v is not None else "None")
+                                         for pth, v in ent_log if isinstance(pth, str))
+        return out
 
     def coq_term(self, case, obs):
         if obs.get("skip"):
             # evaluated as a trivially passing case: the function was called outside the fragment's domain
             return '(Sem [] "" [] (Val VNone))' if False else '(Sem [] "bech32.bech32_hrp_expand" [VStr []] (Val (VList [VInt 0])))'
+        if "ent" in obs:
+            return '(SemE %s %s "%s" [%s] %s)' % (obs["sha"], obs["ent"], case["f"], ";".join(cval(unj(a)) for a in case["args"]), obs["exp"])
         return '(Sem %s "%s" [%s] %s)' % (obs["sha"], case["f"], ";".join(cval(unj(a)) for a in case["args"]), obs["exp"])
 
     def nontrivial_key(self, case, obs):
